@@ -2439,8 +2439,21 @@ func ruleGenerationRunsTheGenerators(c *core.Ctx) {
 			continue
 		}
 		// returns in front of the last Generate call, with the conditions of the enclosing ifs
-		var visit func(list []ast.Stmt, conds []string)
-		visit = func(list []ast.Stmt, conds []string) {
+		errType := types.Universe.Lookup("error").Type()
+		isErrTest := func(e ast.Expr) bool {
+			found := false
+			ast.Inspect(e, func(k ast.Node) bool {
+				if be, ok := k.(*ast.BinaryExpr); ok && be.Op == token.NEQ && isNilIdent(be.Y) {
+					if t := info.TypeOf(be.X); t != nil && types.Identical(t, errType) {
+						found = true
+					}
+				}
+				return true
+			})
+			return found
+		}
+		var visit func(list []ast.Stmt, conds []ast.Expr)
+		visit = func(list []ast.Stmt, conds []ast.Expr) {
 			for _, s := range list {
 				switch x := s.(type) {
 				case *ast.ReturnStmt:
@@ -2450,20 +2463,28 @@ func ruleGenerationRunsTheGenerators(c *core.Ctx) {
 					n++
 					underErr := false
 					for _, cnd := range conds {
-						if strings.Contains(cnd, "err != nil") || strings.Contains(cnd, "Err != nil") {
+						if cnd != nil && isErrTest(cnd) {
 							underErr = true
+						}
+					}
+					// or the return hands an error value on (whatever the variable is called)
+					if !underErr && len(x.Results) > 0 {
+						lastRes := x.Results[len(x.Results)-1]
+						if t := info.TypeOf(lastRes); t != nil && !isNilIdent(lastRes) {
+							if types.Identical(t, errType) || types.Implements(t, errType.Underlying().(*types.Interface)) {
+								underErr = true
+							}
 						}
 					}
 					c.Check(underErr, rule, fmt.Sprintf("%s/return#%d", c.FuncName(d), n), x.Pos(), "returns an error",
 						"a path returns in front of the generators without an error: the regeneration reports success although nothing was generated, so after an edit the digest / cache does not see (a predecessor version, an option of an import) the files on disk stay different from a one-shot `yardl generate`")
 				case *ast.IfStmt:
-					cnd := types.ExprString(x.Cond)
-					visit(x.Body.List, append(append([]string{}, conds...), cnd))
+					visit(x.Body.List, append(append([]ast.Expr{}, conds...), x.Cond))
 					switch e := x.Else.(type) {
 					case *ast.BlockStmt:
-						visit(e.List, append(append([]string{}, conds...), "!("+cnd+")"))
+						visit(e.List, append(append([]ast.Expr{}, conds...), nil))
 					case *ast.IfStmt:
-						visit([]ast.Stmt{e}, append(append([]string{}, conds...), "!("+cnd+")"))
+						visit([]ast.Stmt{e}, append(append([]ast.Expr{}, conds...), nil))
 					}
 				case *ast.BlockStmt:
 					visit(x.List, conds)
@@ -2473,7 +2494,7 @@ func ruleGenerationRunsTheGenerators(c *core.Ctx) {
 					visit(x.Body.List, conds)
 				case *ast.SwitchStmt:
 					for _, cl := range x.Body.List {
-						visit(cl.(*ast.CaseClause).Body, append(append([]string{}, conds...), "case"))
+						visit(cl.(*ast.CaseClause).Body, append(append([]ast.Expr{}, conds...), nil))
 					}
 				}
 			}
